@@ -36,10 +36,16 @@ def parse_policy(s):
             if r is None or peek() != ')': return None
             pos[0] += 1; return r
         if isinstance(t, tuple):
-            pos[0] += 1; txt = t[1].strip()
-            if txt == '*': return [[]]
-            if txt.count('::') != 1: return None
-            d, n = txt.split('::')
+            pos[0] += 1
+            # the parser trims the remaining expression before each token (leading spaces go) and trims a whole
+            # (sub)expression before parsing it (trailing spaces go only at the end of the string or before ')');
+            # emptiness of dimension / name is tested BEFORE they are trimmed
+            nxt = peek()
+            raw = t[1].lstrip()
+            if nxt is None or nxt == ')': raw = raw.rstrip()
+            if raw == '*': return [[]]
+            if raw.count('::') != 1: return None
+            d, n = raw.split('::')
             if d == '' or n == '': return None
             return [[(d.strip(), n.strip())]]
         return None
